@@ -159,13 +159,15 @@ def relations(ctx, d, doc, rows, kind_at, clef_ok, selections, case0, label):
             ctx.ev()
             ctx.mon('exports')
             t, exc = kpx.dumps(d, encoding=enc, **kw(sel))
+            # the six views also through one long-lived ExportOptions object whose category set object stays the same from view to view
+            kpx.shared_options_check(ctx, d, dict(kw(sel), encoding=enc), t, exc, case)
             if exc is not None:
                 if name in ('akern', 'aekern') and isinstance(exc, ValueError) and not clef_ok:
                     ctx.mon('agnostic_without_clef_rejected')
                     out[name] = None
                     continue
-                if name in ('akern', 'aekern'):
-                    # other agnostic failures (natural sign etc.) belong to C10 / C13; they are counted, not judged here
+                if name in ('akern', 'aekern') and not clef_ok:
+                    # a note without a clef in force has no staff position: whatever the agnostic export does is counted, not judged
                     ctx.mon(f'agnostic_export_raised:{type(exc).__name__}')
                     out[name] = None
                     continue
